@@ -322,7 +322,9 @@ def mon_c02_static(spec, ex, p):
                       f'{pid}: sum of timesteps {total} != elapsed '
                       f'{final - t0}')
                 if rows:
-                    node = rows[-1][1]
+                    # the state at the end of the run (the last emitted
+                    # row is older than that when emit_step != 1)
+                    node = worlds.probes.pure(ex.engine.state.get_value())
                     for key in priv_path(spec, i):
                         node = node.get(key, {})
                     if node.get('clk') != final - t0:
